@@ -4,6 +4,8 @@
 (* here and substituted with <- .                                           *)
 EXTENDS Router
 
+RECURSIVE SeqOfSetU(_)
+SeqOfSetU(S) == IF S = {} THEN <<>> ELSE LET x == CHOOSE x \in S : TRUE IN <<x>> \o SeqOfSetU(S \ {x})
 G == <<"GET">>   P == <<"POST">>   GP == <<"GET", "POST">>   D == <<"DELETE">>
 
 \* ---------------- pool T (tiny; smoke test and binding self-test)
